@@ -131,5 +131,101 @@ def sepDir : List (SepPart K) → List K
 /-- `SeparableSum.derivative(x)(d) = d.inner(gradient(x))` in the product space. -/
 def sepDeriv (ps : List (SepPart K)) : K := sepInner ps (sepDir ps) (sepGrad ps)
 
+/-! ### ROUND 5: expression trees OVER the new leaves
+
+`Fn` (shared with C08) cannot get new constructors without breaking C08's exhaustive inductions,
+so the trees over KL / KL-conjugate / L2-norm leaves are a second, C09-owned language: a leaf is
+either a whole `Fn` tree (`base`) or one of the new leaves, and the derived nodes are the
+classes of `functional.py` under which such leaves occur in practice. Gradients are built exactly
+as in `Fn.grad`. -/
+
+/-- The new leaves' operations on the vector type (`klVal` contains `log` and is only
+instantiated in the theorems; the driver never evaluates it). -/
+structure LeafOps (V K : Type) where
+  klVal : V → V → K          -- prior, x
+  klGrad : V → V → V
+  klOk : V → Bool            -- no division by zero in `KLGradient._call`
+  klccVal : V → V → K
+  klccGrad : V → V → V
+  klccOk : V → Bool
+  l2Val : V → K
+  l2Grad : V → V
+
+inductive FnX (V K : Type)
+  | base (t : Fn V K)                           -- any tree of the shared language
+  | kl (g : V)                                  -- KullbackLeibler(space, prior=g)
+  | klcc (g : V)                                -- KullbackLeiblerConvexConj(space, prior=g)
+  | l2                                          -- L2Norm / LpNorm(exponent=2)
+  | lscal (s : K) (f : FnX V K)                 -- FunctionalLeftScalarMult
+  | rscal (f : FnX V K) (s : K)                 -- FunctionalRightScalarMult
+  | sum (f g : FnX V K)                         -- FunctionalSum
+  | ssum (f : FnX V K) (c : K)                  -- FunctionalScalarSum
+  | trans (f : FnX V K) (t : V)                 -- FunctionalTranslation
+  | qp (f : FnX V K) (a : K) (u : V) (c : K)    -- FunctionalQuadraticPerturb
+
+variable {V : Type} (o : VecOps V K) (lo : LeafOps V K)
+
+/-- Does the tree contain a leaf whose value is not executable (`log`)? -/
+def FnX.hasLog : FnX V K → Bool
+  | .kl _ | .klcc _ => true
+  | .base _ | .l2 => false
+  | .lscal _ f | .rscal f _ | .ssum f _ | .trans f _ | .qp f _ _ _ => f.hasLog
+  | .sum f g => f.hasLog || g.hasLog
+
+def FnX.value : FnX V K → V → K
+  | .base t, x => t.value o x
+  | .kl g, x => lo.klVal g x
+  | .klcc g, x => lo.klccVal g x
+  | .l2, x => lo.l2Val x
+  | .lscal s f, x => s * f.value x
+  | .rscal f s, x => f.value (o.smul s x)
+  | .sum f g, x => f.value x + g.value x
+  | .ssum f c, x => f.value x + c
+  | .trans f t, x => f.value (o.sub x t)
+  | .qp f a u c, x => f.value x + a * o.inner x x + o.inner x u + c
+
+def FnX.hasGrad : FnX V K → Bool
+  | .base t => t.hasGrad
+  | .kl _ | .klcc _ | .l2 => true
+  | .lscal _ f | .rscal f _ | .ssum f _ | .trans f _ | .qp f _ _ _ => f.hasGrad
+  | .sum f g => f.hasGrad && g.hasGrad
+
+/-- No division by zero anywhere in the evaluation of the gradient at `x`. -/
+def FnX.gradOk : FnX V K → V → Bool
+  | .kl _, x => lo.klOk x
+  | .klcc _, x => lo.klccOk x
+  | .base _, _ | .l2, _ => true
+  | .lscal _ f, x | .ssum f _, x | .qp f _ _ _, x => f.gradOk x
+  | .rscal f s, x => f.gradOk (o.smul s x)
+  | .trans f t, x => f.gradOk (o.sub x t)
+  | .sum f g, x => f.gradOk x && g.gradOk x
+
+/-- `f.gradient(x)`, node by node as in `Fn.grad`. -/
+def FnX.grad : FnX V K → V → V
+  | .base t, x => t.grad o x
+  | .kl g, x => lo.klGrad g x
+  | .klcc g, x => lo.klccGrad g x
+  | .l2, x => lo.l2Grad x
+  | .lscal s f, x => o.smul s (f.grad x)
+  | .rscal f s, x => o.smul s (f.grad (o.smul s x))
+  | .sum f g, x => o.add (f.grad x) (g.grad x)
+  | .ssum f _, x => o.add (f.grad x) o.zero
+  | .trans f t, x => f.grad (o.sub x t)
+  | .qp f a u _, x => o.add (o.add (f.grad x) (o.smul (two * a) x)) u
+
+/-- `f.derivative(x)(d) = d.inner(f.gradient(x))`. -/
+def FnX.deriv (f : FnX V K) (x d : V) : K := o.inner d (f.grad o lo x)
+
+/-- The leaves on weighted lists, as the driver executes them (`sqrt` a parameter). -/
+def listLeafOps (sqrt : K → K) (w : List K) : LeafOps (List K) K where
+  klVal := fun _ _ => 0        -- never evaluated (`hasLog`)
+  klGrad := klGrad
+  klOk := klGradFinite
+  klccVal := fun _ _ => 0      -- never evaluated
+  klccGrad := klccGrad
+  klccOk := klccGradFinite
+  l2Val := l2Val sqrt w
+  l2Grad := l2Grad sqrt w
+
 end
 end OdlModel.FunctionalsLeaves
